@@ -497,7 +497,10 @@ func awaitOrStuck[T any](ch <-chan T, gid *atomic.Int64) (x T, stuck bool, state
 	d := 250 * time.Microsecond
 	t := time.NewTimer(d)
 	defer t.Stop()
-	strikes := 0
+	// Stuck = seen waiting for a lock at every look for a full second (a
+	// goroutine that was just handed a lock may take a while to be
+	// scheduled on a busy machine; a leaked lock stays leaked).
+	var since time.Time
 	for {
 		select {
 		case x = <-ch:
@@ -506,12 +509,13 @@ func awaitOrStuck[T any](ch <-chan T, gid *atomic.Int64) (x T, stuck bool, state
 			if id := gid.Load(); id != 0 {
 				st := goroutineState(id)
 				if lockWait(st) {
-					strikes++
-					if strikes >= 2 {
+					if since.IsZero() {
+						since = time.Now()
+					} else if time.Since(since) >= time.Second {
 						return x, true, st
 					}
 				} else {
-					strikes = 0
+					since = time.Time{}
 				}
 			}
 			if d < 200*time.Millisecond {
